@@ -306,6 +306,23 @@ class Ctx:
                         if isinstance(a, ast.Tuple) and any(isinstance(e, ast.Name) and e.id in ('BaseException', 'Exception')
                                                             for e in a.elts):
                             out.append(m)
+        if not out:
+            # by what they answer: true for a stored exception object, false for a stored value and for a missing entry
+            from .absint import AObj, ARaise, Interp, Oracle, make_storage
+            for m in st.methods.values():
+                a = m.node.args
+                if m.name.startswith('__') or len(a.args) < 2 or len(a.args) - len(a.defaults) > 2 or a.vararg or a.kwarg:
+                    continue
+                try:
+                    answers = []
+                    for val in (AObj(('ext', 'builtins.ValueError'), {'args': ()}, tag='exc'), 7, None):
+                        contents = {'node_results': {'K': ('visible', val)}} if val is not None else {}
+                        storage = make_storage(self.p, st, contents)
+                        answers.append(Interp(self.p, Oracle()).call_unit(m, ['K'], {}, storage))
+                    if answers == [True, False, False]:
+                        out.append(m)
+                except (ARaise, AnalysisError, KeyError):
+                    continue
         return out
 
     # ------------------------------------------------------------------ formatting
